@@ -239,7 +239,7 @@ class LMC(SVGP):
 
 FAMILIES = {c.name: c for c in (Default, DefaultIterative, Batch, BatchNaN, SKI, SKIDyn, SGPR, SVGP, SVGPU, SVGPMF, SVGPBD, LMC)}
 
-EXACT_OPS = ["pred", "pred_fpv", "pred_nodetach", "pred_skipvar", "pred_eager", "pred_batch", "train_step", "set_data", "set_targets", "load_sd", "load_sd_same", "fantasy", "prior", "backward", "train_eval"]
+EXACT_OPS = ["pred", "pred_fpv", "pred_nodetach", "pred_skipvar", "pred_eager", "pred_batch", "train_step", "set_data", "set_targets", "set_targets_strict", "load_sd", "load_sd_same", "fantasy", "prior", "backward", "train_eval"]
 VAR_OPS = ["pred", "pred_batch", "pred_skipvar", "pred_eager", "train_step", "load_sd", "load_sd_same", "prior", "backward", "train_eval"]
 
 
@@ -309,6 +309,10 @@ def apply_op(fam, m, op, state):
         cur_n = m.train_targets.shape[-1]
         newy = f.y3 if cur_n == f.n else torch.cos(m.train_inputs[0].sum(-1) * 1.3)
         m.set_train_data(targets=newy, strict=False)
+    elif op == "set_targets_strict":
+        # targets only, default strict=True (same shape as the current targets)
+        cur = m.train_targets
+        m.set_train_data(targets=torch.cos(cur * 1.7 + 0.3) + 0.1 * cur)
     elif op == "load_sd":
         m.load_state_dict(_perturb_sd(m.state_dict()))
     elif op == "load_sd_same":
